@@ -137,6 +137,9 @@ static int print_i(void (*printchar_handler)(void *d, int c),
     } while (u);
 
     len = (int)(end - str);
+    /* the value zero with an explicit precision of zero has no digits */
+    if (!nonzero && (ops & OPS_PREC_IS_GIVEN) && !min_len)
+        len = 0;
     /* the precision is a minimum number of digits, sign and prefix do not
      * count; the 0 flag fills what sign, prefix and digits leave of the width
      * unless there is a '-' flag or a precision */
@@ -149,7 +152,8 @@ static int print_i(void (*printchar_handler)(void *d, int c),
     zero_count = MAX(zero_count, 0);
     /* alternate octal form: one more zero unless the first digit is a zero
      * already */
-    if ((base == 8) && (ops & OPS_FLAG_WITH_SPEC) && !zero_count && nonzero)
+    if ((base == 8) && (ops & OPS_FLAG_WITH_SPEC) && !zero_count &&
+        (nonzero || !len))
         zero_count = 1;
     space_count = width - len - prefix_len - zero_count;
     space_count = MAX(space_count, 0);
